@@ -122,4 +122,1173 @@ theorem toString_zero (pr : Prims) (k : XKey) : toString pr (zero k) = zeroedStr
 
 theorem zero_isPrivate (k : XKey) : (zero k).isPrivate = false := rfl
 
+
+open GoBk.Proofs GoBk.Proofs.KeyBytes
+
+/-! ### constants -/
+
+theorem N_eq : Bip32.N = Spec.N := c_N_eq
+theorem masterKey_eq : Gen.masterKey = Spec.Bip32.seedKey := by decide
+theorem hardenedStart_eq : Gen.k_hardenedKeyStart = 2 ^ 31 := rfl
+
+/-! ### curve facts: a finite point of secp256k1 has no zero coordinate -/
+
+theorem seven_nonresidue : powMod 7 ((P - 1) / 2) P = P - 1 := by decide +kernel
+
+theorem valid_coords_ne_zero {a : Pt} (hv : valid a = true) (hne : a ≠ inf) : a.1 ≠ 0 ∧ a.2 ≠ 0 := by
+  obtain ⟨x, y⟩ := a
+  have hon := onCurve_of_valid hv hne
+  constructor
+  · rintro (rfl : x = 0)
+    rw [onCurve_cast] at hon
+    have h7 : (y : F) ^ 2 = 7 := by rw [hon]; simp
+    have hy0 : (y : F) ≠ 0 := by
+      intro e; rw [e] at h7; simp at h7; exact seven_ne_zero' h7.symm
+    have h1 : (7 : F) ^ ((P - 1) / 2) = 1 := by
+      rw [← h7, ← pow_mul, show 2 * ((P - 1) / 2) = P - 1 by decide]
+      exact ZMod.pow_card_sub_one_eq_one hy0
+    have h2 : ((powMod 7 ((P - 1) / 2) P : ℕ) : F) = 1 := by
+      rw [cast_powMod]; exact_mod_cast h1
+    rw [seven_nonresidue, Nat.cast_sub (by decide : 1 ≤ P), ZMod.natCast_self] at h2
+    have : (2 : F) = 0 := by
+      have h3 : (0 : F) - ((1 : ℕ) : F) = 1 := h2
+      rw [Nat.cast_one] at h3
+      linear_combination -h3
+    exact two_ne_zero' this
+  · rintro (rfl : y = 0)
+    have hd : pdouble (x, 0) = inf := by simp [pdouble]
+    rw [pdouble_eq_padd hv] at hd
+    obtain ⟨Q, hQ⟩ := (valid_iff _).1 hv
+    rw [← hQ, padd_enc, enc_eq_inf_iff] at hd
+    have := no_two_torsion Q hd
+    rw [this] at hQ
+    exact hne hQ.symm
+
+theorem smul_G_ne_inf' {n : Nat} (h1 : 1 ≤ n) (h2 : n < Spec.N) : smul n G ≠ inf := by
+  intro e
+  have := Nat.le_of_dvd (by omega) ((smul_G_eq_inf_iff n).1 e)
+  omega
+
+theorem smul_G_coords_ne_zero {n : Nat} (h1 : 1 ≤ n) (h2 : n < Spec.N) :
+    (smul n G).1 ≠ 0 ∧ (smul n G).2 ≠ 0 :=
+  valid_coords_ne_zero (valid_smul n valid_G) (smul_G_ne_inf' h1 h2)
+
+
+/-! ### byte-level facts -/
+
+theorem take_append_len {α} (a r : List α) (n : Nat) (h : a.length = n) : (a ++ r).take n = a := by
+  subst h; simp
+
+theorem drop_append_len {α} (a r : List α) (n : Nat) (h : a.length = n) : (a ++ r).drop n = r := by
+  subst h; simp
+
+theorem be32_eq_ser32 (i : Nat) (h : i < 2 ^ 32) : be32 i = Spec.Bip32.ser32 i := by
+  unfold be32 Spec.Bip32.ser32; rw [Nat.mod_eq_of_lt h]
+
+theorem be32_length (i : Nat) : (be32 i).length = 4 :=
+  natBEpad_length 4 _ (by have := Nat.mod_lt i (show 0 < 2 ^ 32 by decide); omega)
+
+theorem beNat_be32 (i : Nat) (h : i < 2 ^ 32) : beNat (be32 i) = i := by
+  unfold be32; rw [beNat_natBEpad, Nat.mod_eq_of_lt h]
+
+/-- a string of at most 32 bytes, left-padded to 32, is `ser256` of its value -/
+theorem padLeft32_eq_ser256 (key : Bytes) (h : key.length ≤ 32) :
+    padLeft 32 key = Spec.Bip32.ser256 (beNat key) := by
+  have hl := padLeft_length_of_le 32 key h
+  have := natBEpad_beNat (padLeft 32 key)
+  rw [hl, beNat_padLeft] at this
+  exact this.symm
+
+theorem serCompressed_eq_serP (q : Pt) : Ecdsa.serCompressed q = Spec.Bip32.serP q := by
+  unfold Ecdsa.serCompressed Spec.Bip32.serP Spec.Bip32.ser256
+  have : q.2 % 2 = 0 ∨ q.2 % 2 = 1 := by omega
+  rcases this with h | h <;> simp [h]
+
+theorem serCompressed_length {q : Pt} (hv : valid q = true) : (Ecdsa.serCompressed q).length = 33 := by
+  simp [Ecdsa.serCompressed, natBEpad32_length_of_lt_P (valid_lt hv).1]
+
+theorem parse_serCompressed {q : Pt} (hv : valid q = true) (hne : q ≠ inf) :
+    Ecdsa.parsePubKey (Ecdsa.serCompressed q) = some q := by
+  rw [parsePubKey_iff_sec1]
+  refine ⟨(valid_lt hv).1, (valid_lt hv).2, onCurve_of_valid hv hne, Or.inr (Or.inr ?_)⟩
+  unfold Ecdsa.serCompressed
+  by_cases hp : q.2 % 2 = 1
+  · rw [parity_odd hp]; simp [hp]
+  · rw [parity_even hp]; simp [hp]
+
+/-- a 33-byte string that parses is the compressed form of the parsed point -/
+theorem eq_serCompressed_of_parse {b : Bytes} {q : Pt} (h : Ecdsa.parsePubKey b = some q)
+    (hl : b.length = 33) : b = Ecdsa.serCompressed q ∧ valid q = true ∧ q ≠ inf := by
+  obtain ⟨hx, hy, hon, hb⟩ := (parsePubKey_iff_sec1 b q).1 h
+  have lx := natBEpad32_length_of_lt_P hx
+  have ly := natBEpad32_length_of_lt_P hy
+  refine ⟨?_, valid_of_onCurve hx hy hon, ne_inf_of_onCurve hon⟩
+  rcases hb with rfl | rfl | rfl
+  · simp [lx, ly] at hl
+  · simp [lx, ly] at hl
+  · unfold Ecdsa.serCompressed
+    by_cases hp : q.2 % 2 = 1
+    · rw [parity_odd hp]; simp [hp]
+    · rw [parity_even hp]; simp [hp]
+
+theorem pubKeyBytes_priv (k : XKey) (h : k.isPrivate = true) :
+    k.pubKeyBytes = Ecdsa.serCompressed (smul (beNat k.key) G) := by
+  unfold XKey.pubKeyBytes; rw [h]; simp only [Bool.not_true, Bool.false_eq_true, if_false]
+  rw [scalarBaseMult_eq]
+
+theorem pubKeyBytes_pub (k : XKey) (h : k.isPrivate = false) : k.pubKeyBytes = k.key := by
+  unfold XKey.pubKeyBytes; rw [h]; rfl
+
+/-! ### the HMAC input of `Child` -/
+
+theorem childData33_hardened (k : XKey) (i : Nat) (hl : k.key.length ≤ 32) (hi : i ≥ 2 ^ 31) :
+    childData33 k i = 0 :: padLeft 32 k.key := by
+  unfold childData33
+  rw [if_pos (by rw [hardenedStart_eq]; exact hi), if_neg (by omega)]
+  have e : List.replicate (33 - k.key.length) (0 : UInt8) = 0 :: List.replicate (32 - k.key.length) 0 := by
+    rw [show 33 - k.key.length = (32 - k.key.length) + 1 by omega, List.replicate_succ]
+  rw [e]
+  apply take_append_len
+  simp; omega
+
+theorem childData33_normal (k : XKey) (i : Nat) (hl : k.pubKeyBytes.length = 33) (hi : i < 2 ^ 31) :
+    childData33 k i = k.pubKeyBytes := by
+  unfold childData33
+  rw [if_neg (by rw [hardenedStart_eq]; omega)]
+  exact take_append_len _ _ _ hl
+
+
+/-! ### well-formed extended keys -/
+
+/-- the shape every key produced by `NewMaster`, `Child`, `Neuter`, `NewKeyFromString` has
+(for `Child` up to the degenerate zero key, see `child_WF`) -/
+def WF (k : XKey) : Prop :=
+  k.version.length = 4 ∧ k.chainCode.length = 32 ∧ k.parentFP.length = 4 ∧ k.depth < 256 ∧
+  k.childNum < 2 ^ 32 ∧
+  (k.isPrivate = true → 1 ≤ beNat k.key ∧ beNat k.key < N ∧ k.key.length ≤ 32) ∧
+  (k.isPrivate = false → k.key.length = 33 ∧ (Ecdsa.parsePubKey k.key).isSome = true)
+
+instance (k : XKey) : Decidable (WF k) := by unfold WF; exact inferInstance
+
+theorem WF.pub_point {k : XKey} (h : WF k) (hp : k.isPrivate = false) :
+    ∃ K, Ecdsa.parsePubKey k.key = some K ∧ k.key = Ecdsa.serCompressed K ∧ valid K = true ∧ K ≠ inf := by
+  obtain ⟨hl, hs⟩ := h.2.2.2.2.2.2 hp
+  obtain ⟨K, hK⟩ := Option.isSome_iff_exists.1 hs
+  exact ⟨K, hK, eq_serCompressed_of_parse hK hl⟩
+
+theorem WF.pubKeyBytes_length {k : XKey} (h : WF k) : k.pubKeyBytes.length = 33 := by
+  cases hp : k.isPrivate
+  · rw [pubKeyBytes_pub k hp]; exact (h.2.2.2.2.2.2 hp).1
+  · rw [pubKeyBytes_priv k hp]; exact serCompressed_length (valid_smul _ valid_G)
+
+/-! ### `Child`: refusals -/
+
+theorem child_depth_255 (pr : Prims) (k : XKey) (i : Nat) (h : k.depth = 255) :
+    child pr k i = .error .maxDepth := by
+  rw [child_eq, if_pos (by rw [h]; rfl)]
+
+theorem child_hardened_from_public (pr : Prims) (k : XKey) (i : Nat) (hd : k.depth ≠ 255)
+    (hp : k.isPrivate = false) (hi : i ≥ 2 ^ 31) : child pr k i = .error .hardFromPublic := by
+  rw [child_eq, if_neg (by simpa [Gen.k_maxUint8] using hd), if_pos (by have : 2147483648 ≤ i := hi; simp [hp, hardenedStart_eq, this])]
+
+theorem child_hardened_from_public_fails (pr : Prims) (k : XKey) (i : Nat)
+    (hp : k.isPrivate = false) (hi : i ≥ 2 ^ 31) : (child pr k i).toOption = none := by
+  by_cases hd : k.depth = 255
+  · rw [child_depth_255 pr k i hd]; rfl
+  · rw [child_hardened_from_public pr k i hd hp hi]; rfl
+
+/-! ### `Child` on a private key is `CKDpriv` -/
+
+theorem childI_priv (pr : Prims) (k : XKey) (i : Nat) (h : WF k) (hp : k.isPrivate = true) (hi : i < 2 ^ 32) :
+    childI pr k i = Spec.Bip32.ckdPrivI pr.hmac512 (beNat k.key) k.chainCode i := by
+  unfold childI Spec.Bip32.ckdPrivI
+  have hl := (h.2.2.2.2.2.1 hp).2.2
+  by_cases hh : i ≥ 2 ^ 31
+  · rw [if_pos hh, childData33_hardened k i hl hh, padLeft32_eq_ser256 _ hl, be32_eq_ser32 i hi]; rfl
+  · rw [if_neg hh, childData33_normal k i h.pubKeyBytes_length (by omega), pubKeyBytes_priv k hp,
+      serCompressed_eq_serP, be32_eq_ser32 i hi]; rfl
+
+theorem childFP_priv (pr : Prims) (k : XKey) (hp : k.isPrivate = true) :
+    childFP pr k = Spec.Bip32.fingerprint pr.hash160 (Spec.Bip32.point (beNat k.key)) := by
+  unfold childFP Spec.Bip32.fingerprint
+  rw [pubKeyBytes_priv k hp, serCompressed_eq_serP]; rfl
+
+/-- **`Child` on a private key**, complete: with `I = HMAC-SHA512(c_par, …)` exactly as in
+`CKDpriv`, the call fails iff `parse256(I_L) ≥ n` or `parse256(I_L) = 0`, and otherwise returns
+`k_i = (parse256(I_L) + k_par) mod n` (stored as minimal big-endian bytes), `c_i = I_R`, depth+1,
+child number `i`, the parent's fingerprint and the parent's version. -/
+theorem child_priv_eq (pr : Prims) (k : XKey) (i : Nat) (h : WF k) (hp : k.isPrivate = true)
+    (hd : k.depth ≠ 255) (hi : i < 2 ^ 32) :
+    child pr k i =
+      (let I := Spec.Bip32.ckdPrivI pr.hmac512 (beNat k.key) k.chainCode i
+       let IL := Spec.Bip32.parse256 (I.take 32)
+       if IL ≥ Spec.N ∨ IL = 0 then .error .invalidChild
+       else .ok { key := natBE ((IL + beNat k.key) % Spec.N), chainCode := I.drop 32,
+                  parentFP := Spec.Bip32.fingerprint pr.hash160 (Spec.Bip32.point (beNat k.key)),
+                  version := k.version, childNum := i, depth := k.depth + 1, isPrivate := true }) := by
+  rw [child_eq, if_neg (by simpa [Gen.k_maxUint8] using hd), if_neg (by simp [hp])]
+  simp only [hp, if_true]
+  unfold childPriv childIL childCC
+  rw [childI_priv pr k i h hp hi, childFP_priv pr k hp, N_eq]
+  generalize Spec.Bip32.ckdPrivI pr.hmac512 (beNat k.key) k.chainCode i = I
+  by_cases hc : beNat (I.take 32) ≥ Spec.N ∨ beNat (I.take 32) = 0
+  · rw [if_pos (by simpa using hc)]; exact (if_pos hc).symm
+  · rw [if_neg (by simpa using hc)]; exact (if_neg hc).symm
+
+
+/-- agreement with `CKDpriv` where BIP-0032 defines a key and `I_L ≠ 0` -/
+theorem child_of_ckdPriv (pr : Prims) (k : XKey) (i : Nat) (h : WF k) (hp : k.isPrivate = true)
+    (hd : k.depth ≠ 255) (hi : i < 2 ^ 32) (ki : Nat) (ci : Bytes)
+    (hs : Spec.Bip32.ckdPriv pr.hmac512 (beNat k.key) k.chainCode i = some (ki, ci))
+    (h0 : Spec.Bip32.parse256 ((Spec.Bip32.ckdPrivI pr.hmac512 (beNat k.key) k.chainCode i).take 32) ≠ 0) :
+    child pr k i = .ok { key := natBE ki, chainCode := ci,
+                         parentFP := Spec.Bip32.fingerprint pr.hash160 (Spec.Bip32.point (beNat k.key)),
+                         version := k.version, childNum := i, depth := k.depth + 1, isPrivate := true } := by
+  rw [child_priv_eq pr k i h hp hd hi]
+  unfold Spec.Bip32.ckdPriv at hs
+  simp only [] at hs ⊢
+  split at hs
+  · cases hs
+  · rename_i hc
+    injection hs with hs
+    injection hs with e1 e2
+    rw [if_neg (by intro hx; rcases hx with hx | hx; exact hc (Or.inl hx); exact h0 hx), e1, e2]
+
+/-- conversely every non-degenerate key returned by `Child` is the `CKDpriv` child -/
+theorem ckdPriv_of_child (pr : Prims) (k c : XKey) (i : Nat) (h : WF k) (hp : k.isPrivate = true)
+    (hi : i < 2 ^ 32) (hc : child pr k i = .ok c) (hne : beNat c.key ≠ 0) :
+    Spec.Bip32.ckdPriv pr.hmac512 (beNat k.key) k.chainCode i = some (beNat c.key, c.chainCode) := by
+  have hd : k.depth ≠ 255 := by
+    intro e; rw [child_depth_255 pr k i e] at hc; cases hc
+  rw [child_priv_eq pr k i h hp hd hi] at hc
+  simp only [] at hc
+  split at hc
+  · cases hc
+  · rename_i hcond
+    injection hc with hc
+    subst hc
+    simp only [beNat_natBE] at hne ⊢
+    unfold Spec.Bip32.ckdPriv
+    simp only []
+    rw [if_neg (by intro hx; rcases hx with hx | hx; exact hcond (Or.inl hx); exact hne hx)]
+
+/-- `parse256(I_L) ≥ n`: both BIP-0032 and the code refuse -/
+theorem child_priv_refuses (pr : Prims) (k : XKey) (i : Nat) (h : WF k) (hp : k.isPrivate = true)
+    (hd : k.depth ≠ 255) (hi : i < 2 ^ 32)
+    (hge : Spec.Bip32.parse256 ((Spec.Bip32.ckdPrivI pr.hmac512 (beNat k.key) k.chainCode i).take 32) ≥ Spec.N) :
+    child pr k i = .error .invalidChild ∧
+      Spec.Bip32.ckdPriv pr.hmac512 (beNat k.key) k.chainCode i = none := by
+  constructor
+  · rw [child_priv_eq pr k i h hp hd hi]; simp only []; rw [if_pos (Or.inl hge)]
+  · unfold Spec.Bip32.ckdPriv; simp only []; rw [if_pos (Or.inl hge)]
+
+/-! ### `Child` on a public key is `CKDpub` -/
+
+theorem childI_pub (pr : Prims) (k : XKey) (i : Nat) (K : Pt) (hl : k.key.length = 33) (hp : k.isPrivate = false)
+    (hK : Ecdsa.parsePubKey k.key = some K) (hi : i < 2 ^ 31) :
+    childI pr k i = pr.hmac512 k.chainCode (Spec.Bip32.serP K ++ Spec.Bip32.ser32 i) := by
+  unfold childI
+  rw [childData33_normal k i (by rw [pubKeyBytes_pub k hp]; exact hl) hi, pubKeyBytes_pub k hp,
+    (eq_serCompressed_of_parse hK hl).1, serCompressed_eq_serP, be32_eq_ser32 i (by omega)]
+
+/-- **`Child` on a public key**, complete (normal index): `I` as in `CKDpub`; the call fails iff
+`parse256(I_L) ≥ n` or `parse256(I_L) = 0` and otherwise returns `K_i = point(parse256(I_L)) + K_par`
+in compressed form, `c_i = I_R`.  (The code's additional test "`I_L·G` has a zero coordinate" can
+never fire: no finite point of secp256k1 has a zero coordinate — `valid_coords_ne_zero`.) -/
+theorem child_pub_eq' (pr : Prims) (k : XKey) (i : Nat) (K : Pt) (hl : k.key.length = 33) (hp : k.isPrivate = false)
+    (hK : Ecdsa.parsePubKey k.key = some K) (hd : k.depth ≠ 255) (hi : i < 2 ^ 31) :
+    child pr k i =
+      (let I := pr.hmac512 k.chainCode (Spec.Bip32.serP K ++ Spec.Bip32.ser32 i)
+       let IL := Spec.Bip32.parse256 (I.take 32)
+       if IL ≥ Spec.N ∨ IL = 0 then .error .invalidChild
+       else .ok { key := Spec.Bip32.serP (padd (Spec.Bip32.point IL) K), chainCode := I.drop 32,
+                  parentFP := Spec.Bip32.fingerprint pr.hash160 K,
+                  version := k.version, childNum := i, depth := k.depth + 1, isPrivate := false }) := by
+  rw [child_eq, if_neg (by simpa [Gen.k_maxUint8] using hd),
+    if_neg (by have : ¬ 2147483648 ≤ i := by omega
+               simp [hp, hardenedStart_eq, this])]
+  simp only [hp, Bool.false_eq_true, if_false]
+  unfold childPub childIL childCC childFP
+  rw [childI_pub pr k i K hl hp hK hi, N_eq, hK, pubKeyBytes_pub k hp]
+  simp only []
+  rw [(eq_serCompressed_of_parse hK hl).1, serCompressed_eq_serP]
+  generalize pr.hmac512 k.chainCode (Spec.Bip32.serP K ++ Spec.Bip32.ser32 i) = I
+  by_cases hc : beNat (I.take 32) ≥ Spec.N ∨ beNat (I.take 32) = 0
+  · rw [if_pos (by simpa using hc)]; exact (if_pos hc).symm
+  · rw [if_neg (by simpa using hc)]
+    refine Eq.trans ?_ (if_neg hc).symm
+    have hr : 1 ≤ beNat (I.take 32) ∧ beNat (I.take 32) < Spec.N := by omega
+    rw [scalarBaseMult_eq]
+    have hz := smul_G_coords_ne_zero hr.1 hr.2
+    rw [if_neg (by simp [hz.1, hz.2]), Curve.add_def, serCompressed_eq_serP]
+    rfl
+
+
+theorem child_pub_eq (pr : Prims) (k : XKey) (i : Nat) (K : Pt) (h : WF k) (hp : k.isPrivate = false)
+    (hK : Ecdsa.parsePubKey k.key = some K) (hd : k.depth ≠ 255) (hi : i < 2 ^ 31) :
+    child pr k i =
+      (let I := pr.hmac512 k.chainCode (Spec.Bip32.serP K ++ Spec.Bip32.ser32 i)
+       let IL := Spec.Bip32.parse256 (I.take 32)
+       if IL ≥ Spec.N ∨ IL = 0 then .error .invalidChild
+       else .ok { key := Spec.Bip32.serP (padd (Spec.Bip32.point IL) K), chainCode := I.drop 32,
+                  parentFP := Spec.Bip32.fingerprint pr.hash160 K,
+                  version := k.version, childNum := i, depth := k.depth + 1, isPrivate := false }) :=
+  child_pub_eq' pr k i K (h.2.2.2.2.2.2 hp).1 hp hK hd hi
+
+/-- agreement with `CKDpub` where BIP-0032 defines a key and `I_L ≠ 0` -/
+theorem child_of_ckdPub (pr : Prims) (k : XKey) (i : Nat) (K : Pt) (h : WF k) (hp : k.isPrivate = false)
+    (hK : Ecdsa.parsePubKey k.key = some K) (hd : k.depth ≠ 255) (Ki : Pt) (ci : Bytes)
+    (hs : Spec.Bip32.ckdPub pr.hmac512 K k.chainCode i = some (Ki, ci))
+    (h0 : Spec.Bip32.parse256 ((pr.hmac512 k.chainCode (Spec.Bip32.serP K ++ Spec.Bip32.ser32 i)).take 32) ≠ 0) :
+    child pr k i = .ok { key := Spec.Bip32.serP Ki, chainCode := ci,
+                         parentFP := Spec.Bip32.fingerprint pr.hash160 K,
+                         version := k.version, childNum := i, depth := k.depth + 1, isPrivate := false } := by
+  unfold Spec.Bip32.ckdPub at hs
+  split at hs
+  · cases hs
+  · rename_i hi
+    rw [child_pub_eq pr k i K h hp hK hd (by omega)]
+    simp only [] at hs ⊢
+    split at hs
+    · cases hs
+    · rename_i hc
+      injection hs with hs
+      injection hs with e1 e2
+      rw [if_neg (by intro hx; rcases hx with hx | hx; exact hc (Or.inl hx); exact h0 hx), e1, e2]
+
+/-- conversely every non-degenerate key returned by `Child` on a public key is the `CKDpub` child -/
+theorem ckdPub_of_child (pr : Prims) (k c : XKey) (i : Nat) (K : Pt) (h : WF k) (hp : k.isPrivate = false)
+    (hK : Ecdsa.parsePubKey k.key = some K) (hc : child pr k i = .ok c)
+    (hne : c.key ≠ Spec.Bip32.serP inf) :
+    ∃ Ki, Spec.Bip32.ckdPub pr.hmac512 K k.chainCode i = some (Ki, c.chainCode) ∧
+      c.key = Spec.Bip32.serP Ki := by
+  have hd : k.depth ≠ 255 := by
+    intro e; rw [child_depth_255 pr k i e] at hc; cases hc
+  have hi : i < 2 ^ 31 := by
+    apply Decidable.byContradiction; intro hi
+    rw [child_hardened_from_public pr k i hd hp (by omega)] at hc; cases hc
+  rw [child_pub_eq pr k i K h hp hK hd hi] at hc
+  simp only [] at hc
+  split at hc
+  · cases hc
+  · rename_i hcond
+    injection hc with hc
+    subst hc
+    simp only [] at hne ⊢
+    refine ⟨_, ?_, rfl⟩
+    unfold Spec.Bip32.ckdPub
+    rw [if_neg (by omega)]
+    simp only []
+    rw [if_neg (by
+      intro hx; rcases hx with hx | hx
+      · exact hcond (Or.inl hx)
+      · apply hne; rw [hx])]
+
+/-! ### `NewMaster` is BIP-0032 master key generation -/
+
+theorem newMaster_seed_len (pr : Prims) (seed v : Bytes) (h : seed.length < 16 ∨ seed.length > 64) :
+    newMaster pr seed v = .error .invalidSeedLen := by
+  unfold newMaster
+  rw [if_pos (by rcases h with h | h <;> simp [Gen.k_minSeedBytes, Gen.k_maxSeedBytes, h])]
+
+theorem newMaster_eq (pr : Prims) (seed v : Bytes) :
+    newMaster pr seed v =
+      if seed.length < 16 ∨ seed.length > 64 then .error .invalidSeedLen else
+      match Spec.Bip32.master pr.hmac512 seed with
+      | none => .error .unusableSeed
+      | some (_, c) => .ok { key := (pr.hmac512 Spec.Bip32.seedKey seed).take 32, chainCode := c,
+                             parentFP := [0, 0, 0, 0], version := v, childNum := 0, depth := 0,
+                             isPrivate := true } := by
+  by_cases hl : seed.length < 16 ∨ seed.length > 64
+  · rw [newMaster_seed_len pr seed v hl, if_pos hl]
+  · rw [if_neg hl]
+    unfold newMaster Spec.Bip32.master
+    have hl' : 16 ≤ seed.length ∧ seed.length ≤ 64 := by omega
+    have hb : (decide (seed.length < Gen.k_minSeedBytes) || decide (seed.length > Gen.k_maxSeedBytes)) = false := by
+      have h1 : ¬ seed.length < Gen.k_minSeedBytes := by simp [Gen.k_minSeedBytes]; omega
+      have h2 : ¬ seed.length > Gen.k_maxSeedBytes := by simp [Gen.k_maxSeedBytes]; omega
+      simp [h1, h2]
+    rw [hb, if_neg hl, masterKey_eq, N_eq]
+    simp only [Bool.false_eq_true, if_false]
+    generalize pr.hmac512 Spec.Bip32.seedKey seed = I
+    by_cases hc : Spec.Bip32.parse256 (I.take 32) = 0 ∨ Spec.Bip32.parse256 (I.take 32) ≥ Spec.N
+    · have hc' : beNat (I.take 32) = 0 ∨ beNat (I.take 32) ≥ Spec.N := hc
+      rw [if_pos (by rcases hc' with hc' | hc' <;> simp [hc']), if_pos hc]
+    · have hc' : ¬ (beNat (I.take 32) = 0 ∨ beNat (I.take 32) ≥ Spec.N) := hc
+      rw [if_neg (by simp; omega), if_neg hc]
+
+/-- the stored master key bytes are `ser256` of the BIP-0032 master secret -/
+theorem newMaster_key (pr : Prims) (ok : PrimsOK pr) (seed v : Bytes) (m : XKey)
+    (h : newMaster pr seed v = .ok m) :
+    ∃ k c, Spec.Bip32.master pr.hmac512 seed = some (k, c) ∧ m.key = Spec.Bip32.ser256 k ∧
+      m.chainCode = c ∧ c.length = 32 ∧ 1 ≤ k ∧ k < Spec.N := by
+  rw [newMaster_eq] at h
+  split at h
+  · cases h
+  · cases hm : Spec.Bip32.master pr.hmac512 seed with
+    | none => rw [hm] at h; cases h
+    | some kc =>
+      obtain ⟨k, c⟩ := kc
+      rw [hm] at h
+      injection h with h
+      subst h
+      refine ⟨k, c, rfl, ?_, rfl, ?_⟩
+      · unfold Spec.Bip32.master at hm
+        split at hm
+        · cases hm
+        · simp only [] at hm
+          split at hm
+          · cases hm
+          · injection hm with hm; injection hm with e1 e2
+            subst e1
+            have hl : ((pr.hmac512 Spec.Bip32.seedKey seed).take 32).length = 32 := by
+              rw [List.length_take, ok.hmac512_len]; rfl
+            have := natBEpad_beNat ((pr.hmac512 Spec.Bip32.seedKey seed).take 32)
+            rw [hl] at this
+            exact this.symm
+      · unfold Spec.Bip32.master at hm
+        split at hm
+        · cases hm
+        · simp only [] at hm
+          split at hm
+          · cases hm
+          · rename_i hc
+            injection hm with hm; injection hm with e1 e2
+            subst e1 e2
+            refine ⟨?_, ?_, ?_⟩
+            · rw [List.length_drop, ok.hmac512_len]
+            · omega
+            · omega
+
+/-! ### `Neuter` -/
+
+theorem lookup_mem (reg : Registry) (v w : Bytes) (h : reg.lookup v = some w) : (v, w) ∈ reg ∧ v.length = 4 := by
+  unfold Registry.lookup at h
+  split at h
+  · cases h
+  · rename_i hl
+    cases hf : reg.find? (·.1 == v) with
+    | none => rw [hf] at h; cases h
+    | some p =>
+      rw [hf] at h
+      simp only [Option.map_some, Option.some.injEq] at h
+      have h1 := List.find?_some hf
+      have h2 := List.mem_of_find?_eq_some hf
+      simp only [beq_iff_eq] at h1
+      obtain ⟨a, b⟩ := p
+      simp only at h1 h
+      subst h1 h
+      exact ⟨h2, by simpa using hl⟩
+
+/-- if private ids are registered once, a registered pair is what `lookup` returns -/
+theorem lookup_of_mem (reg : Registry) (v w : Bytes) (hl : v.length = 4) (hm : (v, w) ∈ reg)
+    (hnd : (reg.map (·.1)).Nodup) : reg.lookup v = some w := by
+  unfold Registry.lookup
+  rw [if_neg (by simp [hl])]
+  induction reg with
+  | nil => cases hm
+  | cons p reg ih =>
+    rw [List.find?_cons]
+    by_cases hp : p.1 = v
+    · have : (p.1 == v) = true := by simpa using hp
+      rw [this]
+      simp only [Option.map_some, Option.some.injEq]
+      rcases List.mem_cons.1 hm with e | hm'
+      · rw [← e]
+      · exfalso
+        simp only [List.map_cons, List.nodup_cons] at hnd
+        apply hnd.1
+        rw [hp]
+        exact List.mem_map.2 ⟨(v, w), hm', rfl⟩
+    · have : (p.1 == v) = false := by simpa using hp
+      rw [this]
+      rcases List.mem_cons.1 hm with e | hm'
+      · exact absurd (by rw [← e]) hp
+      · simp only [List.map_cons, List.nodup_cons] at hnd
+        exact ih hm' hnd.2
+
+/-- **`Neuter`** on a private key: `N((k, c)) = (point(k), c)` with the same depth, child number
+and parent fingerprint, and the public version registered for the key's private version. -/
+theorem neuter_priv (reg : Registry) (k c : XKey) (hp : k.isPrivate = true) (h : neuter reg k = .ok c) :
+    reg.lookup k.version = some c.version ∧
+    c.key = Spec.Bip32.serP (Spec.Bip32.point (beNat k.key)) ∧ c.chainCode = k.chainCode ∧
+    c.parentFP = k.parentFP ∧ c.depth = k.depth ∧ c.childNum = k.childNum ∧ c.isPrivate = false := by
+  unfold neuter at h
+  rw [if_neg (by simp [hp])] at h
+  cases hl : reg.lookup k.version with
+  | none => rw [hl] at h; cases h
+  | some v =>
+    rw [hl] at h
+    injection h with h
+    subst h
+    refine ⟨rfl, ?_, rfl, rfl, rfl, rfl, rfl⟩
+    show k.pubKeyBytes = _
+    rw [pubKeyBytes_priv k hp, serCompressed_eq_serP]; rfl
+
+theorem neuter_priv_ok (reg : Registry) (k : XKey) (v : Bytes) (hp : k.isPrivate = true)
+    (hl : reg.lookup k.version = some v) :
+    neuter reg k = .ok { key := k.pubKeyBytes, chainCode := k.chainCode, parentFP := k.parentFP, version := v,
+                         childNum := k.childNum, depth := k.depth, isPrivate := false } := by
+  unfold neuter
+  rw [if_neg (by simp [hp]), hl]
+
+theorem neuter_pub (reg : Registry) (k : XKey) (hp : k.isPrivate = false) : neuter reg k = .ok k := by
+  unfold neuter; rw [if_pos (by simp [hp])]
+
+theorem neuter_unknown (reg : Registry) (k : XKey) (hp : k.isPrivate = true)
+    (h : ∀ w, (k.version, w) ∉ reg) : neuter reg k = .error .unknownHDKeyID := by
+  unfold neuter
+  rw [if_neg (by simp [hp])]
+  cases hl : reg.lookup k.version with
+  | none => rfl
+  | some v => exact absurd (lookup_mem reg _ _ hl).1 (h v)
+
+/-! ### `ECPrivKey` / `ECPubKey` -/
+
+theorem ecPrivKey_priv (k : XKey) (hp : k.isPrivate = true) : ecPrivKey k = some (beNat k.key) := by
+  unfold ecPrivKey; rw [if_pos hp]
+
+theorem ecPrivKey_pub (k : XKey) (hp : k.isPrivate = false) : ecPrivKey k = none := by
+  unfold ecPrivKey; rw [if_neg (by simp [hp])]
+
+theorem ecPubKey_priv (k : XKey) (h : WF k) (hp : k.isPrivate = true) :
+    ecPubKey k = some (Spec.Bip32.point (beNat k.key)) := by
+  unfold ecPubKey
+  obtain ⟨h1, h2, _⟩ := h.2.2.2.2.2.1 hp
+  rw [pubKeyBytes_priv k hp]
+  rw [N_eq] at h2
+  exact parse_serCompressed (valid_smul _ valid_G) (smul_G_ne_inf' h1 h2)
+
+theorem ecPubKey_pub (k : XKey) (K : Pt) (hp : k.isPrivate = false) (hK : Ecdsa.parsePubKey k.key = some K) :
+    ecPubKey k = some K := by
+  unfold ecPubKey; rw [pubKeyBytes_pub k hp, hK]
+
+
+/-! ### closure of `WF` -/
+
+theorem hash160_len (pr : Prims) (ok : PrimsOK pr) (b : Bytes) : (pr.hash160 b).length = 20 :=
+  ok.ripemd160_len _
+
+theorem childFP_length (pr : Prims) (ok : PrimsOK pr) (k : XKey) : (childFP pr k).length = 4 := by
+  unfold childFP; rw [List.length_take, hash160_len pr ok]; rfl
+
+theorem childCC_length (pr : Prims) (ok : PrimsOK pr) (k : XKey) (i : Nat) : (childCC pr k i).length = 32 := by
+  unfold childCC childI; rw [List.length_drop, ok.hmac512_len]
+
+theorem newMaster_WF (pr : Prims) (ok : PrimsOK pr) (seed v : Bytes) (m : XKey) (hv : v.length = 4)
+    (h : newMaster pr seed v = .ok m) : WF m := by
+  obtain ⟨k, c, hm, hk, hc, hcl, h1, h2⟩ := newMaster_key pr ok seed v m h
+  rw [newMaster_eq] at h
+  split at h
+  · cases h
+  · rw [hm] at h
+    injection h with h
+    have hkey : beNat m.key = k := by rw [hk]; exact beNat_natBEpad _ _
+    have hkl : m.key.length = 32 := by
+      rw [hk]; exact natBEpad_length 32 k (Nat.lt_trans h2 N_lt_pow)
+    subst h
+    refine ⟨hv, hcl, rfl, Nat.zero_lt_succ _, Nat.pow_pos (by decide), fun _ => ⟨?_, ?_, ?_⟩, fun hp => by cases hp⟩
+    · rw [hkey]; exact h1
+    · rw [hkey, N_eq]; exact h2
+    · rw [hkl]
+
+/-- the two "invalid key" outcomes of BIP-0032 that `Child` does not detect: the zero private key
+and the point at infinity (probability about 2⁻¹²⁷ each; no input reaching them can be
+constructed without inverting HMAC-SHA512) -/
+def Degenerate (c : XKey) : Prop :=
+  (c.isPrivate = true ∧ c.key = []) ∨ (c.isPrivate = false ∧ c.key = Ecdsa.serCompressed inf)
+
+theorem child_priv_key (pr : Prims) (k c : XKey) (i : Nat) (h : WF k) (hp : k.isPrivate = true)
+    (hi : i < 2 ^ 32) (hc : child pr k i = .ok c) :
+    ∃ IL, 1 ≤ IL ∧ IL < Spec.N ∧ c.key = natBE ((IL + beNat k.key) % Spec.N) := by
+  have hd : k.depth ≠ 255 := by
+    intro e; rw [child_depth_255 pr k i e] at hc; cases hc
+  rw [child_priv_eq pr k i h hp hd hi] at hc
+  simp only [] at hc
+  split at hc
+  · cases hc
+  · rename_i hcond
+    injection hc with hc
+    subst hc
+    exact ⟨_, by omega, by omega, rfl⟩
+
+theorem child_pub_key (pr : Prims) (k c : XKey) (i : Nat) (K : Pt) (h : WF k) (hp : k.isPrivate = false)
+    (hK : Ecdsa.parsePubKey k.key = some K) (hc : child pr k i = .ok c) :
+    ∃ IL, 1 ≤ IL ∧ IL < Spec.N ∧ c.key = Ecdsa.serCompressed (padd (smul IL G) K) := by
+  have hd : k.depth ≠ 255 := by
+    intro e; rw [child_depth_255 pr k i e] at hc; cases hc
+  have hi : i < 2 ^ 31 := by
+    apply Decidable.byContradiction; intro hi
+    rw [child_hardened_from_public pr k i hd hp (by omega)] at hc; cases hc
+  rw [child_pub_eq pr k i K h hp hK hd hi] at hc
+  simp only [] at hc
+  split at hc
+  · cases hc
+  · rename_i hcond
+    injection hc with hc
+    subst hc
+    exact ⟨_, by omega, by omega, (serCompressed_eq_serP _).symm⟩
+
+theorem child_WF (pr : Prims) (ok : PrimsOK pr) (k c : XKey) (i : Nat) (h : WF k) (hi : i < 2 ^ 32)
+    (hc : child pr k i = .ok c) (hnd : ¬ Degenerate c) : WF c := by
+  obtain ⟨e1, e2, e3, e4, e5⟩ := child_depth pr k c i hc
+  have ev := child_version pr k c i hc
+  have hd : k.depth ≠ 255 := by
+    intro e; rw [child_depth_255 pr k i e] at hc; cases hc
+  refine ⟨by rw [ev]; exact h.1, by rw [e4]; exact childCC_length pr ok k i,
+    by rw [e5]; exact childFP_length pr ok k, by have := h.2.2.2.1; omega, by omega, ?_, ?_⟩
+  · intro hpc
+    have hp : k.isPrivate = true := by rw [← e3]; exact hpc
+    obtain ⟨IL, _, _, hkey⟩ := child_priv_key pr k c i h hp hi hc
+    have hlt : (IL + beNat k.key) % Spec.N < Spec.N := Nat.mod_lt _ N_pos
+    generalize (IL + beNat k.key) % Spec.N = ki at hkey hlt
+    rw [hkey, beNat_natBE, N_eq]
+    refine ⟨?_, hlt, natBE_length_le ki 32 (Nat.lt_trans hlt N_lt_pow)⟩
+    apply Nat.pos_of_ne_zero
+    intro e
+    apply hnd; left
+    exact ⟨hpc, by rw [hkey, e]; rfl⟩
+  · intro hpc
+    have hp : k.isPrivate = false := by rw [← e3]; exact hpc
+    obtain ⟨K, hK, _, hKv, hKne⟩ := h.pub_point hp
+    obtain ⟨IL, _, _, hkey⟩ := child_pub_key pr k c i K h hp hK hc
+    have hv : valid (padd (smul IL G) K) = true := valid_padd (valid_smul _ valid_G) hKv
+    have hne : padd (smul IL G) K ≠ inf := by
+      intro e
+      apply hnd; right
+      exact ⟨hpc, by rw [hkey, e]⟩
+    rw [hkey]
+    exact ⟨serCompressed_length hv, by rw [parse_serCompressed hv hne]; rfl⟩
+
+theorem neuter_WF (reg : Registry) (k c : XKey) (h : WF k) (hreg : ∀ p ∈ reg, p.2.length = 4)
+    (hc : neuter reg k = .ok c) : WF c := by
+  cases hp : k.isPrivate
+  · rw [neuter_pub reg k hp] at hc; injection hc with hc; subst hc; exact h
+  · obtain ⟨h1, h2, h3, h4, h5, h6, h7⟩ := neuter_priv reg k c hp hc
+    obtain ⟨b1, b2, _⟩ := h.2.2.2.2.2.1 hp
+    rw [N_eq] at b2
+    have hv : valid (smul (beNat k.key) G) = true := valid_smul _ valid_G
+    refine ⟨hreg _ (lookup_mem reg _ _ h1).1, by rw [h3]; exact h.2.1, by rw [h4]; exact h.2.2.1,
+      by rw [h5]; exact h.2.2.2.1, by rw [h6]; exact h.2.2.2.2.1,
+      ⟨fun e => (by rw [h7] at e; cases e), fun _ => ?_⟩⟩
+    rw [h2, ← serCompressed_eq_serP]
+    exact ⟨serCompressed_length hv, by
+      rw [show Spec.Bip32.point (beNat k.key) = smul (beNat k.key) G from rfl,
+        parse_serCompressed hv (smul_G_ne_inf' b1 b2)]; rfl⟩
+
+
+/-! ### `String` and `NewKeyFromString` in stages -/
+
+/-- the 78-byte payload that `String()` encodes -/
+def serPayload (k : XKey) : Bytes :=
+  k.version ++ [UInt8.ofNat k.depth] ++ k.parentFP ++ be32 k.childNum ++ k.chainCode ++
+    (if k.isPrivate then [0x00] ++ padLeft 32 k.key else k.pubKeyBytes)
+
+theorem toString_eq (pr : Prims) (k : XKey) :
+    toString pr k = if k.key.isEmpty then zeroedString
+      else Base58.encode (serPayload k ++ (pr.sha256d (serPayload k)).take 4) := by
+  unfold toString serPayload
+  cases k.isPrivate <;> simp [List.append_assoc]
+
+/-- the key assembled from the six fields of a payload -/
+def buildKey (v : Bytes) (d : UInt8) (fp cn cc kd : Bytes) : Except Err XKey :=
+  if kd.headD 1 == 0x00 then
+    (if beNat (kd.drop 1) ≥ N || beNat (kd.drop 1) = 0 then .error .unusableSeed else
+     .ok { key := kd.drop 1, chainCode := cc, parentFP := fp, version := v, childNum := beNat cn,
+           depth := d.toNat, isPrivate := true })
+  else
+    match Ecdsa.parsePubKey kd with
+    | none => .error .badPubKey
+    | some _ => .ok { key := kd, chainCode := cc, parentFP := fp, version := v, childNum := beNat cn,
+                      depth := d.toNat, isPrivate := false }
+
+def parsePayload (p : Bytes) : Except Err XKey :=
+  buildKey (p.take 4) (p.getD 4 0) ((p.drop 5).take 4) ((p.drop 9).take 4) ((p.drop 13).take 32)
+    ((p.drop 45).take 33)
+
+theorem fromString_eq (pr : Prims) (s : Bytes) :
+    fromString pr s =
+      if (Base58.decode s).length ≠ 82 then .error .invalidKeyLen else
+      if (Base58.decode s).drop 78 ≠ (pr.sha256d ((Base58.decode s).take 78)).take 4 then .error .badChecksum else
+      parsePayload ((Base58.decode s).take 78) := by
+  unfold fromString
+  simp only []
+  generalize Base58.decode s = d
+  by_cases hl : d.length = 82
+  · have h1 : (d.length != Gen.k_serializedKeyLen + 4) = false := by simp [hl, Gen.k_serializedKeyLen]
+    have h2 : ¬ d.length ≠ 82 := by omega
+    have e78 : d.length - 4 = 78 := by omega
+    rw [h1, if_neg h2, e78]
+    simp only [Bool.false_eq_true, if_false]
+    by_cases hc : d.drop 78 = (pr.sha256d (d.take 78)).take 4
+    · have h3 : (d.drop 78 != (pr.sha256d (d.take 78)).take 4) = false := by simp [hc]
+      rw [h3, if_neg (not_not.mpr hc)]; rfl
+    · have h3 : (d.drop 78 != (pr.sha256d (d.take 78)).take 4) = true := by simpa using hc
+      rw [h3, if_pos hc]; rfl
+  · rw [if_pos (by simpa [Gen.k_serializedKeyLen] using hl), if_pos hl]
+
+/-- field extraction from a concatenation of fields with the right lengths -/
+theorem parsePayload_append (v fp cn cc kd : Bytes) (d : UInt8) (hv : v.length = 4) (hfp : fp.length = 4)
+    (hcn : cn.length = 4) (hcc : cc.length = 32) (hkd : kd.length = 33) :
+    parsePayload (v ++ [d] ++ fp ++ cn ++ cc ++ kd) = buildKey v d fp cn cc kd := by
+  unfold parsePayload
+  have e : v ++ [d] ++ fp ++ cn ++ cc ++ kd = v ++ (d :: (fp ++ (cn ++ (cc ++ kd)))) := by simp
+  rw [e]
+  have t1 : (v ++ (d :: (fp ++ (cn ++ (cc ++ kd))))).take 4 = v := take_append_len _ _ _ hv
+  have t2 : (v ++ (d :: (fp ++ (cn ++ (cc ++ kd))))).getD 4 0 = d := by
+    rw [← hv]; simp
+  have d5 : (v ++ (d :: (fp ++ (cn ++ (cc ++ kd))))).drop 5 = fp ++ (cn ++ (cc ++ kd)) := by
+    have : (v ++ [d] ++ (fp ++ (cn ++ (cc ++ kd)))).drop 5 = fp ++ (cn ++ (cc ++ kd)) :=
+      drop_append_len _ _ _ (by simp [hv])
+    simpa using this
+  have d9 : (v ++ (d :: (fp ++ (cn ++ (cc ++ kd))))).drop 9 = cn ++ (cc ++ kd) := by
+    have : (v ++ [d] ++ fp ++ (cn ++ (cc ++ kd))).drop 9 = cn ++ (cc ++ kd) :=
+      drop_append_len _ _ _ (by simp [hv, hfp])
+    simpa using this
+  have d13 : (v ++ (d :: (fp ++ (cn ++ (cc ++ kd))))).drop 13 = cc ++ kd := by
+    have : (v ++ [d] ++ fp ++ cn ++ (cc ++ kd)).drop 13 = cc ++ kd :=
+      drop_append_len _ _ _ (by simp [hv, hfp, hcn])
+    simpa using this
+  have d45 : (v ++ (d :: (fp ++ (cn ++ (cc ++ kd))))).drop 45 = kd := by
+    have : (v ++ [d] ++ fp ++ cn ++ cc ++ kd).drop 45 = kd :=
+      drop_append_len _ _ _ (by simp [hv, hfp, hcn, hcc])
+    simpa using this
+  rw [t1, t2, d5, d9, d13, d45, take_append_len _ _ _ hfp, take_append_len _ _ _ hcn,
+    take_append_len _ _ _ hcc, List.take_of_length_le (by omega)]
+
+
+/-! ### `NewKeyFromString(k.String())` -/
+
+/-- the key that `NewKeyFromString(k.String())` returns: `k` with its private key bytes left-padded
+to 32 bytes (`Child` stores a child's private key as minimal big-endian bytes) -/
+def normalize (k : XKey) : XKey := if k.isPrivate then { k with key := padLeft 32 k.key } else k
+
+theorem normalize_pub (k : XKey) (hp : k.isPrivate = false) : normalize k = k := by
+  unfold normalize; rw [if_neg (by simp [hp])]
+
+theorem normalize_priv (k : XKey) (hp : k.isPrivate = true) :
+    normalize k = { k with key := padLeft 32 k.key } := by
+  unfold normalize; rw [if_pos hp]
+
+theorem normalize_of_len (k : XKey) (h : k.isPrivate = true → k.key.length = 32) : normalize k = k := by
+  cases hp : k.isPrivate
+  · exact normalize_pub k hp
+  · rw [normalize_priv k hp, padLeft_of_ge 32 k.key (Nat.le_of_eq (h hp).symm)]
+
+theorem keyData_length (k : XKey) (h : WF k) :
+    (if k.isPrivate then [0x00] ++ padLeft 32 k.key else k.pubKeyBytes).length = 33 := by
+  cases hp : k.isPrivate
+  · simp only [Bool.false_eq_true, if_false]; exact h.pubKeyBytes_length
+  · simp only [if_true]
+    have := padLeft_length_of_le 32 k.key (h.2.2.2.2.2.1 hp).2.2
+    simp [this]
+
+theorem serPayload_length (k : XKey) (h : WF k) : (serPayload k).length = 78 := by
+  unfold serPayload
+  simp only [List.length_append, keyData_length k h, h.1, h.2.1, h.2.2.1, be32_length, List.length_cons,
+    List.length_nil]
+
+theorem ofNat_toNat_lt (n : Nat) (h : n < 256) : (UInt8.ofNat n).toNat = n := by
+  simp [UInt8.toNat_ofNat']; omega
+
+theorem serCompressed_headD (q : Pt) : (Ecdsa.serCompressed q).headD 1 ≠ 0 := by
+  unfold Ecdsa.serCompressed
+  by_cases hp : (q.2 % 2 == 1) = true <;> simp [hp]
+
+theorem buildKey_of_WF (k : XKey) (h : WF k) :
+    buildKey k.version (UInt8.ofNat k.depth) k.parentFP (be32 k.childNum) k.chainCode
+      (if k.isPrivate then [0x00] ++ padLeft 32 k.key else k.pubKeyBytes) = .ok (normalize k) := by
+  unfold buildKey
+  have hd := ofNat_toNat_lt k.depth h.2.2.2.1
+  have hc := beNat_be32 k.childNum h.2.2.2.2.1
+  cases hp : k.isPrivate
+  · obtain ⟨K, hK, hkey, _, _⟩ := h.pub_point hp
+    simp only [Bool.false_eq_true, if_false]
+    rw [pubKeyBytes_pub k hp, normalize_pub k hp]
+    have hh : (k.key.headD 1 == 0) = false := by
+      rw [hkey]; simpa using serCompressed_headD K
+    rw [hh, hK, hd, hc]
+    simp only [Bool.false_eq_true, if_false]
+    cases k; simp_all
+  · obtain ⟨b1, b2, b3⟩ := h.2.2.2.2.2.1 hp
+    simp only [if_true]
+    rw [normalize_priv k hp]
+    simp only [List.singleton_append, List.headD_cons, List.drop_succ_cons, List.drop_zero, beq_self_eq_true,
+      if_true, beNat_padLeft]
+    rw [if_neg (by simp; omega), hd, hc]
+    cases k; simp_all
+
+/-- **round trip**: for every well-formed key, `NewKeyFromString(k.String())` succeeds and returns
+`k` up to left-padding of the private key bytes -/
+theorem fromString_toString (pr : Prims) (ok : PrimsOK pr) (k : XKey) (h : WF k) :
+    fromString pr (toString pr k) = .ok (normalize k) := by
+  have hne : k.key.isEmpty = false := by
+    cases hp : k.isPrivate
+    · have := (h.2.2.2.2.2.2 hp).1
+      cases hk : k.key with
+      | nil => rw [hk] at this; cases this
+      | cons a b => rfl
+    · have := (h.2.2.2.2.2.1 hp).1
+      cases hk : k.key with
+      | nil => rw [hk] at this; simp at this
+      | cons a b => rfl
+  have hl := serPayload_length k h
+  have hck : ((pr.sha256d (serPayload k)).take 4).length = 4 := by
+    rw [List.length_take]; unfold Prims.sha256d; rw [ok.sha256_len]; rfl
+  rw [toString_eq, hne]
+  simp only [Bool.false_eq_true, if_false]
+  rw [fromString_eq, Base58.decode_encode]
+  rw [if_neg (by simp [hl, hck]), take_append_len _ _ _ hl, drop_append_len _ _ _ hl, if_neg (by simp)]
+  unfold serPayload
+  rw [parsePayload_append _ _ _ _ _ _ h.1 h.2.2.1 (be32_length _) h.2.1 (keyData_length k h)]
+  exact buildKey_of_WF k h
+
+
+/-! ### the re-imported key behaves like the original -/
+
+theorem padLeft_padLeft (n : Nat) (b : Bytes) : padLeft n (padLeft n b) = padLeft n b := by
+  apply padLeft_of_ge; rw [padLeft_length]; omega
+
+theorem normalize_fields (k : XKey) :
+    (normalize k).chainCode = k.chainCode ∧ (normalize k).parentFP = k.parentFP ∧
+    (normalize k).version = k.version ∧ (normalize k).childNum = k.childNum ∧
+    (normalize k).depth = k.depth ∧ (normalize k).isPrivate = k.isPrivate ∧
+    beNat (normalize k).key = beNat k.key := by
+  cases hp : k.isPrivate
+  · rw [normalize_pub k hp]; exact ⟨rfl, rfl, rfl, rfl, rfl, hp, rfl⟩
+  · rw [normalize_priv k hp]; exact ⟨rfl, rfl, rfl, rfl, rfl, hp, beNat_padLeft _ _⟩
+
+theorem normalize_pubKeyBytes (k : XKey) : (normalize k).pubKeyBytes = k.pubKeyBytes := by
+  cases hp : k.isPrivate
+  · rw [normalize_pub k hp]
+  · rw [pubKeyBytes_priv k hp, pubKeyBytes_priv _ ((normalize_fields k).2.2.2.2.2.1.trans hp),
+      (normalize_fields k).2.2.2.2.2.2]
+
+theorem normalize_serPayload (k : XKey) : serPayload (normalize k) = serPayload k := by
+  cases hp : k.isPrivate
+  · rw [normalize_pub k hp]
+  · rw [normalize_priv k hp]; unfold serPayload; simp only [hp, if_true, padLeft_padLeft]
+
+/-- (for a key with empty key bytes — a zeroed key — the statement is false: `String()` prints
+"zeroed extended key" for it but not for 32 zero bytes) -/
+theorem normalize_toString (pr : Prims) (k : XKey) (hne : k.key ≠ []) :
+    toString pr (normalize k) = toString pr k := by
+  rw [toString_eq, toString_eq, normalize_serPayload]
+  cases hp : k.isPrivate
+  · rw [normalize_pub k hp]
+  · rw [normalize_priv k hp]
+    have : (padLeft 32 k.key).isEmpty = k.key.isEmpty := by
+      cases hk : k.key with
+      | nil => exact absurd hk hne
+      | cons a b => simp [padLeft]
+    simp only [this]
+
+theorem normalize_idem (k : XKey) : normalize (normalize k) = normalize k := by
+  cases hp : k.isPrivate
+  · rw [normalize_pub k hp, normalize_pub k hp]
+  · rw [normalize_priv k hp]
+    have := normalize_priv { k with key := padLeft 32 k.key } hp
+    rw [this]; simp only [padLeft_padLeft]
+
+theorem normalize_WF (k : XKey) (h : WF k) : WF (normalize k) := by
+  cases hp : k.isPrivate
+  · rw [normalize_pub k hp]; exact h
+  · rw [normalize_priv k hp]
+    obtain ⟨b1, b2, b3⟩ := h.2.2.2.2.2.1 hp
+    refine ⟨h.1, h.2.1, h.2.2.1, h.2.2.2.1, h.2.2.2.2.1, fun _ => ?_, fun e => ?_⟩
+    · simp only [beNat_padLeft]
+      exact ⟨b1, b2, Nat.le_of_eq (padLeft_length_of_le 32 k.key b3)⟩
+    · exact absurd (hp.symm.trans e) (by decide)
+
+theorem normalize_childData33 (k : XKey) (i : Nat) (h : WF k) : childData33 (normalize k) i = childData33 k i := by
+  cases hp : k.isPrivate
+  · rw [normalize_pub k hp]
+  · by_cases hi : i ≥ 2 ^ 31
+    · have hl := (h.2.2.2.2.2.1 hp).2.2
+      have hl' := ((normalize_WF k h).2.2.2.2.2.1 ((normalize_fields k).2.2.2.2.2.1.trans hp)).2.2
+      rw [childData33_hardened k i hl hi, childData33_hardened _ i hl' hi, normalize_priv k hp]
+      simp only [padLeft_padLeft]
+    · rw [childData33_normal k i h.pubKeyBytes_length (by omega),
+        childData33_normal _ i (normalize_WF k h).pubKeyBytes_length (by omega), normalize_pubKeyBytes]
+
+/-- the re-imported key has exactly the same children as the original -/
+theorem normalize_child (pr : Prims) (k : XKey) (i : Nat) (h : WF k) :
+    child pr (normalize k) i = child pr k i := by
+  obtain ⟨f1, f2, f3, f4, f5, f6, f7⟩ := normalize_fields k
+  have eI : childI pr (normalize k) i = childI pr k i := by
+    unfold childI; rw [normalize_childData33 k i h, f1]
+  have eIL : childIL pr (normalize k) i = childIL pr k i := by unfold childIL; rw [eI]
+  have eCC : childCC pr (normalize k) i = childCC pr k i := by unfold childCC; rw [eI]
+  have eFP : childFP pr (normalize k) = childFP pr k := by unfold childFP; rw [normalize_pubKeyBytes]
+  have e1 : childPriv pr (normalize k) i = childPriv pr k i := by
+    unfold childPriv; rw [eIL, eCC, eFP, f3, f5, f7]
+  cases hp : k.isPrivate
+  · rw [normalize_pub k hp]
+  · have hp' : (normalize k).isPrivate = true := f6.trans hp
+    rw [child_eq, child_eq, f5, eIL, e1, hp', hp, if_pos (rfl : true = true), if_pos (rfl : true = true)]
+
+theorem normalize_address (pr : Prims) (k : XKey) (a : UInt8) : address pr (normalize k) a = address pr k a := by
+  unfold address; rw [normalize_pubKeyBytes]
+
+theorem normalize_ecPubKey (k : XKey) : ecPubKey (normalize k) = ecPubKey k := by
+  unfold ecPubKey; rw [normalize_pubKeyBytes]
+
+theorem normalize_ecPrivKey (k : XKey) : ecPrivKey (normalize k) = ecPrivKey k := by
+  obtain ⟨_, _, _, _, _, f6, f7⟩ := normalize_fields k
+  unfold ecPrivKey; rw [f6, f7]
+
+theorem normalize_parentFingerprint (k : XKey) : parentFingerprint (normalize k) = parentFingerprint k := by
+  unfold parentFingerprint; rw [(normalize_fields k).2.1]
+
+theorem normalize_neuter (reg : Registry) (k : XKey) : neuter reg (normalize k) = neuter reg k := by
+  cases hp : k.isPrivate
+  · rw [normalize_pub k hp]
+  · obtain ⟨f1, f2, f3, f4, f5, f6, f7⟩ := normalize_fields k
+    unfold neuter
+    rw [f6, hp, f3, normalize_pubKeyBytes, f1, f2, f4, f5]
+    simp only [Bool.not_true, Bool.false_eq_true, if_false]
+
+/-! ### what `NewKeyFromString` accepts -/
+
+theorem buildKey_ok (v : Bytes) (d : UInt8) (fp cn cc kd : Bytes) (k : XKey) :
+    buildKey v d fp cn cc kd = .ok k ↔
+      (kd.headD 1 = 0 ∧ 1 ≤ beNat (kd.drop 1) ∧ beNat (kd.drop 1) < Spec.N ∧
+         k = { key := kd.drop 1, chainCode := cc, parentFP := fp, version := v, childNum := beNat cn,
+               depth := d.toNat, isPrivate := true }) ∨
+      (kd.headD 1 ≠ 0 ∧ (Ecdsa.parsePubKey kd).isSome = true ∧
+         k = { key := kd, chainCode := cc, parentFP := fp, version := v, childNum := beNat cn,
+               depth := d.toNat, isPrivate := false }) := by
+  unfold buildKey
+  rw [N_eq]
+  by_cases hh : kd.headD 1 = 0
+  · have : (kd.headD 1 == 0) = true := by simpa using hh
+    rw [this]; simp only [if_true]
+    by_cases hr : 1 ≤ beNat (kd.drop 1) ∧ beNat (kd.drop 1) < Spec.N
+    · rw [if_neg (by simp only [Bool.or_eq_true, decide_eq_true_eq]; omega)]
+      constructor
+      · intro e; injection e with e; exact Or.inl ⟨hh, hr.1, hr.2, e.symm⟩
+      · rintro (⟨_, _, _, e⟩ | ⟨h1, _⟩)
+        · rw [e]
+        · exact absurd hh h1
+    · rw [if_pos (by simp only [Bool.or_eq_true, decide_eq_true_eq]; omega)]
+      constructor
+      · intro e; cases e
+      · rintro (⟨_, h1, h2, _⟩ | ⟨h1, _⟩)
+        · exact absurd ⟨h1, h2⟩ hr
+        · exact absurd hh h1
+  · have : (kd.headD 1 == 0) = false := by simpa using hh
+    rw [this]; simp only [Bool.false_eq_true, if_false]
+    cases hp : Ecdsa.parsePubKey kd with
+    | none =>
+      simp only []
+      constructor
+      · intro e; cases e
+      · rintro (⟨h1, _⟩ | ⟨_, h1, _⟩)
+        · exact absurd h1 hh
+        · cases h1
+    | some K =>
+      simp only []
+      constructor
+      · intro e; injection e with e; exact Or.inr ⟨hh, rfl, e.symm⟩
+      · rintro (⟨h1, _⟩ | ⟨_, _, e⟩)
+        · exact absurd h1 hh
+        · rw [e]
+
+/-- **acceptance**: `NewKeyFromString(s)` returns `k` iff `s` decodes to 82 bytes whose last four are
+the first four bytes of the double SHA-256 of the first 78, and the key field (bytes 45..77) is either
+`0x00 ‖ d` with `1 ≤ d < n` (then `k` is the private key with those 32 bytes) or — first byte not
+zero — a valid compressed public key (then `k` is that public key); the other fields are copied. -/
+theorem fromString_ok_iff (pr : Prims) (s : Bytes) (k : XKey) :
+    fromString pr s = .ok k ↔
+      (Base58.decode s).length = 82 ∧
+      (Base58.decode s).drop 78 = (pr.sha256d ((Base58.decode s).take 78)).take 4 ∧
+      parsePayload ((Base58.decode s).take 78) = .ok k := by
+  rw [fromString_eq]
+  by_cases hl : (Base58.decode s).length = 82
+  · rw [if_neg (not_not.mpr hl)]
+    by_cases hc : (Base58.decode s).drop 78 = (pr.sha256d ((Base58.decode s).take 78)).take 4
+    · rw [if_neg (not_not.mpr hc)]
+      exact ⟨fun e => ⟨hl, hc, e⟩, fun e => e.2.2⟩
+    · rw [if_pos hc]
+      exact ⟨fun e => (by cases e), fun e => absurd e.2.1 hc⟩
+  · rw [if_pos hl]
+    exact ⟨fun e => (by cases e), fun e => absurd e.1 hl⟩
+
+theorem fromString_wrong_length (pr : Prims) (s : Bytes) (h : (Base58.decode s).length ≠ 82) :
+    fromString pr s = .error .invalidKeyLen := by
+  rw [fromString_eq, if_pos h]
+
+theorem fromString_wrong_checksum (pr : Prims) (s : Bytes) (hl : (Base58.decode s).length = 82)
+    (h : (Base58.decode s).drop 78 ≠ (pr.sha256d ((Base58.decode s).take 78)).take 4) :
+    fromString pr s = .error .badChecksum := by
+  rw [fromString_eq, if_neg (not_not.mpr hl), if_pos h]
+
+theorem fromString_WF (pr : Prims) (s : Bytes) (k : XKey) (h : fromString pr s = .ok k) :
+    WF k ∧ (k.isPrivate = true → k.key.length = 32) := by
+  obtain ⟨hl, _, hp⟩ := (fromString_ok_iff pr s k).1 h
+  generalize hpl : (Base58.decode s).take 78 = p at hp
+  have hpl' : p.length = 78 := by rw [← hpl, List.length_take, hl]; rfl
+  unfold parsePayload at hp
+  have l1 : (p.take 4).length = 4 := by rw [List.length_take]; omega
+  have l2 : ((p.drop 5).take 4).length = 4 := by rw [List.length_take, List.length_drop]; omega
+  have l3 : ((p.drop 9).take 4).length = 4 := by rw [List.length_take, List.length_drop]; omega
+  have l4 : ((p.drop 13).take 32).length = 32 := by rw [List.length_take, List.length_drop]; omega
+  have l5 : ((p.drop 45).take 33).length = 33 := by rw [List.length_take, List.length_drop]; omega
+  have hcn : beNat ((p.drop 9).take 4) < 2 ^ 32 := by
+    have := beNat_lt ((p.drop 9).take 4); rw [l3] at this; exact this
+  have hdp : (p.getD 4 0).toNat < 256 := (p.getD 4 0).toNat_lt
+  rcases (buildKey_ok _ _ _ _ _ _ k).1 hp with ⟨_, h1, h2, rfl⟩ | ⟨_, h1, rfl⟩
+  · have l6 : (((p.drop 45).take 33).drop 1).length = 32 := by rw [List.length_drop, l5]
+    refine ⟨⟨l1, l4, l2, hdp, hcn, fun _ => ⟨h1, by rw [N_eq]; exact h2, Nat.le_of_eq l6⟩,
+      fun e => (by cases e)⟩, fun _ => l6⟩
+  · exact ⟨⟨l1, l4, l2, hdp, hcn, fun e => (by cases e), fun _ => ⟨l5, h1⟩⟩, fun e => (by cases e)⟩
+
+/-- keys produced by `NewKeyFromString` are fixed points of the round trip -/
+theorem fromString_toString_of_fromString (pr : Prims) (ok : PrimsOK pr) (s : Bytes) (k : XKey)
+    (h : fromString pr s = .ok k) : fromString pr (toString pr k) = .ok k := by
+  obtain ⟨hw, hl⟩ := fromString_WF pr s k h
+  rw [fromString_toString pr ok k hw, normalize_of_len k hl]
+
+
+/-! ### public derivation commutes with private derivation -/
+
+/-- `Neuter(Child_i(k)) = Child_i(Neuter(k))` for a normal index `i`: whenever the private
+derivation succeeds, the public derivation from the neutered parent succeeds and yields the
+neutered child.  (No side condition on the child: in the degenerate case `(I_L + k) mod n = 0` both
+sides carry the "compressed encoding" of `(0,0)`.) -/
+theorem neuter_child_comm (pr : Prims) (reg : Registry) (k c nk : XKey) (i : Nat) (h : WF k)
+    (hp : k.isPrivate = true) (hi : i < 2 ^ 31) (hc : child pr k i = .ok c)
+    (hnk : neuter reg k = .ok nk) : ∃ c', child pr nk i = .ok c' ∧ neuter reg c = .ok c' := by
+  have hd : k.depth ≠ 255 := by
+    intro e; rw [child_depth_255 pr k i e] at hc; cases hc
+  obtain ⟨n1, n2, n3, n4, n5, n6, n7⟩ := neuter_priv reg k nk hp hnk
+  obtain ⟨b1, b2, b3⟩ := h.2.2.2.2.2.1 hp
+  rw [N_eq] at b2
+  -- the neutered parent
+  have hKv : valid (smul (beNat k.key) G) = true := valid_smul _ valid_G
+  have hKne : smul (beNat k.key) G ≠ inf := smul_G_ne_inf' b1 b2
+  have hnkkey : nk.key = Ecdsa.serCompressed (smul (beNat k.key) G) := by
+    rw [n2, ← serCompressed_eq_serP]; rfl
+  have hnkl : nk.key.length = 33 := by rw [hnkkey]; exact serCompressed_length hKv
+  have hnkK : Ecdsa.parsePubKey nk.key = some (smul (beNat k.key) G) := by
+    rw [hnkkey]; exact parse_serCompressed hKv hKne
+  -- the private child
+  rw [child_priv_eq pr k i h hp hd (by omega)] at hc
+  have hI : Spec.Bip32.ckdPrivI pr.hmac512 (beNat k.key) k.chainCode i =
+      pr.hmac512 k.chainCode (Spec.Bip32.serP (smul (beNat k.key) G) ++ Spec.Bip32.ser32 i) := by
+    unfold Spec.Bip32.ckdPrivI; rw [if_neg (by omega)]; rfl
+  rw [hI] at hc
+  -- the public child of the neutered parent
+  rw [child_pub_eq' pr nk i _ hnkl n7 hnkK (by rw [n5]; exact hd) hi, n3]
+  generalize pr.hmac512 k.chainCode (Spec.Bip32.serP (smul (beNat k.key) G) ++ Spec.Bip32.ser32 i) = I at hc ⊢
+  simp only [] at hc ⊢
+  split at hc
+  · cases hc
+  · rename_i hcond
+    rw [if_neg hcond]
+    injection hc with hc
+    subst hc
+    refine ⟨_, rfl, ?_⟩
+    refine (neuter_priv_ok reg _ nk.version ?_ ?_).trans ?_
+    · rfl
+    · exact n1
+    · have e1 : ∀ c : XKey, c.isPrivate = true →
+          beNat c.key = (Spec.Bip32.parse256 (List.take 32 I) + beNat k.key) % Spec.N →
+          c.pubKeyBytes = Spec.Bip32.serP
+            (padd (Spec.Bip32.point (Spec.Bip32.parse256 (List.take 32 I))) (smul (beNat k.key) G)) := by
+        intro c cp ck
+        rw [pubKeyBytes_priv c cp, ck, smul_mod_N _ valid_G, smul_add _ _ valid_G, serCompressed_eq_serP]; rfl
+      rw [e1 _ rfl (beNat_natBE _), n5]
+      rfl
+
+
+/-! ### `NewKeyFromString`: complete characterisation and the four refusals -/
+
+/-- the key field (bytes 45..77) of a decoded string -/
+def keyField (d : Bytes) : Bytes := ((d.take 78).drop 45).take 33
+
+theorem fromString_iff (pr : Prims) (s : Bytes) (k : XKey) :
+    fromString pr s = .ok k ↔
+      (Base58.decode s).length = 82 ∧
+      (Base58.decode s).drop 78 = (pr.sha256d ((Base58.decode s).take 78)).take 4 ∧
+      ((keyField (Base58.decode s)).headD 1 = 0 ∧ 1 ≤ beNat ((keyField (Base58.decode s)).drop 1) ∧
+          beNat ((keyField (Base58.decode s)).drop 1) < Spec.N ∧
+          k = { key := (keyField (Base58.decode s)).drop 1,
+                chainCode := (((Base58.decode s).take 78).drop 13).take 32,
+                parentFP := (((Base58.decode s).take 78).drop 5).take 4,
+                version := ((Base58.decode s).take 78).take 4,
+                childNum := beNat ((((Base58.decode s).take 78).drop 9).take 4),
+                depth := (((Base58.decode s).take 78).getD 4 0).toNat, isPrivate := true } ∨
+       (keyField (Base58.decode s)).headD 1 ≠ 0 ∧
+          (Ecdsa.parsePubKey (keyField (Base58.decode s))).isSome = true ∧
+          k = { key := keyField (Base58.decode s),
+                chainCode := (((Base58.decode s).take 78).drop 13).take 32,
+                parentFP := (((Base58.decode s).take 78).drop 5).take 4,
+                version := ((Base58.decode s).take 78).take 4,
+                childNum := beNat ((((Base58.decode s).take 78).drop 9).take 4),
+                depth := (((Base58.decode s).take 78).getD 4 0).toNat, isPrivate := false }) := by
+  rw [fromString_ok_iff]
+  unfold parsePayload keyField
+  rw [buildKey_ok]
+
+theorem fromString_bad_scalar (pr : Prims) (s : Bytes) (hl : (Base58.decode s).length = 82)
+    (hc : (Base58.decode s).drop 78 = (pr.sha256d ((Base58.decode s).take 78)).take 4)
+    (h0 : (keyField (Base58.decode s)).headD 1 = 0)
+    (hr : beNat ((keyField (Base58.decode s)).drop 1) = 0 ∨ beNat ((keyField (Base58.decode s)).drop 1) ≥ Spec.N) :
+    fromString pr s = .error .unusableSeed := by
+  rw [fromString_eq, if_neg (not_not.mpr hl), if_neg (not_not.mpr hc)]
+  unfold parsePayload buildKey
+  unfold keyField at h0 hr
+  rw [N_eq]
+  have : ((((Base58.decode s).take 78).drop 45).take 33).headD 1 == 0 := by simpa using h0
+  rw [if_pos this, if_pos (by simp only [Bool.or_eq_true, decide_eq_true_eq]; omega)]
+
+theorem fromString_bad_pubkey (pr : Prims) (s : Bytes) (hl : (Base58.decode s).length = 82)
+    (hc : (Base58.decode s).drop 78 = (pr.sha256d ((Base58.decode s).take 78)).take 4)
+    (h0 : (keyField (Base58.decode s)).headD 1 ≠ 0)
+    (hp : Ecdsa.parsePubKey (keyField (Base58.decode s)) = none) :
+    fromString pr s = .error .badPubKey := by
+  rw [fromString_eq, if_neg (not_not.mpr hl), if_neg (not_not.mpr hc)]
+  unfold parsePayload buildKey
+  unfold keyField at h0 hp
+  have : (((((Base58.decode s).take 78).drop 45).take 33).headD 1 == 0) = false := by simpa using h0
+  rw [this, hp]
+  rfl
+
+/-- `String()` is Base58 of the 78-byte BIP-0032 serialization followed by its 4-byte checksum -/
+theorem toString_layout (pr : Prims) (k : XKey) (h : WF k) :
+    toString pr k = Base58.encode
+      (Spec.Bip32.serialize k.version k.depth k.parentFP k.childNum k.chainCode
+          (if k.isPrivate then 0x00 :: Spec.Bip32.ser256 (beNat k.key) else k.key) ++
+        (pr.sha256d (Spec.Bip32.serialize k.version k.depth k.parentFP k.childNum k.chainCode
+          (if k.isPrivate then 0x00 :: Spec.Bip32.ser256 (beNat k.key) else k.key))).take 4) := by
+  have hne : k.key.isEmpty = false := by
+    cases hp : k.isPrivate
+    · have := (h.2.2.2.2.2.2 hp).1
+      cases hk : k.key with
+      | nil => rw [hk] at this; cases this
+      | cons a b => rfl
+    · have := (h.2.2.2.2.2.1 hp).1
+      cases hk : k.key with
+      | nil => rw [hk] at this; simp at this
+      | cons a b => rfl
+  rw [toString_eq, hne]
+  simp only [Bool.false_eq_true, if_false]
+  have e : serPayload k = Spec.Bip32.serialize k.version k.depth k.parentFP k.childNum k.chainCode
+      (if k.isPrivate then 0x00 :: Spec.Bip32.ser256 (beNat k.key) else k.key) := by
+    unfold serPayload Spec.Bip32.serialize
+    rw [be32_eq_ser32 _ h.2.2.2.2.1]
+    cases hp : k.isPrivate
+    · simp only [Bool.false_eq_true, if_false]; rw [pubKeyBytes_pub k hp]
+    · simp only [if_true]
+      rw [padLeft32_eq_ser256 _ (h.2.2.2.2.2.1 hp).2.2]; rfl
+  rw [e]
+
+
 end GoBk.Bip32
+
+#print axioms GoBk.Bip32.fromString_toString
+#print axioms GoBk.Bip32.neuter_child_comm
+#print axioms GoBk.Bip32.child_priv_eq
+#print axioms GoBk.Bip32.child_pub_eq
+#print axioms GoBk.Bip32.valid_coords_ne_zero
